@@ -27,6 +27,21 @@ def r34_layer_order(ctx):
     update = opt.methods.get('update')
     init = opt.methods.get('__init__')
     need(all(x is not None for x in (getopt, record, setopt, update, init)), 'Options.getopt/record/setopt/update/__init__ missing')
+    # setopt returns the value in force AFTER it has registered the default / forced value: the value it reads (self.getopt) is read after
+    # every store into a layer, and that is what it returns.  (Fixed.initialize relies on the returned value being the forced one.)
+    scfg = cfg_of(setopt)
+    reads = [x for x in scfg.stmt_nodes() if x.kind == 'stmt' and isinstance(x.ast, ast.Assign) and isinstance(x.ast.value, ast.Call)
+             and unparse(x.ast.value.func) == 'self.getopt']
+    stores = [x for x in scfg.stmt_nodes() if any(isinstance(y, ast.Subscript) and isinstance(y.ctx, ast.Store) and _self_attr(y.value) in ('force', 'default', 'cmd_options', 'file_options')
+                                                  for y in ast.walk(x.ast)) or any(isinstance(c.func, ast.Attribute) and c.func.attr in ('setdefault', 'update') and _self_attr(c.func.value)
+                                                                                  in ('force', 'default') for c in calls_at(x))]
+    rets = [r for r in setopt.own_nodes() if isinstance(r, ast.Return) and r.value is not None]
+    oks = len(reads) == 1 and bool(stores) and all(isinstance(r.value, ast.Name) and r.value.id == reads[0].ast.targets[0].id for r in rets) \
+        and not any(st in scfg.reach([reads[0]]) for st in stores)
+    ctx.check(oks, R, setopt.node, setopt, 'setopt() returns the effective value as it stands after its own default / forced value has been registered',
+              'the single self.getopt() read follows every layer store and is what is returned',
+              'setopt() reads the effective value before it stores the forced/default value (or returns something else): a caller that forces an '
+              'option gets back the value the user supplied')
     # getopt: v = self.L0.get(name, None); v = self.L1.get(name, v); ...; return v
     body = [s for s in getopt.node.body if not (isinstance(s, ast.Expr) and isinstance(s.value, ast.Constant))]
     chain = []
@@ -304,6 +319,81 @@ def _driver_passes_options_unchanged(ctx, R):
               'supplied nothing' % (stmt_text(ctx.repo.enclosing_stmt(writes[0])) if writes else ''))
 
 
+def _one_option_per_setting(ctx, R):
+    """each setting of an arithmetic class (precision, guard, display / dp) is governed by ONE option name: two names for one setting are
+    resolved through the layers separately, so a lower layer's value under one name can beat a higher layer's value under the other"""
+    n = 0
+    for qn in ('droop.values.fixed.Fixed', 'droop.values.guarded.Guarded', 'droop.values.rational.Rational'):
+        cls = ctx.repo.cls(qn)
+        init = cls.methods.get('initialize')
+        need(init is not None, '%s.initialize missing' % qn)
+
+        def names_in(e, depth=0):
+            out = set()
+            for x in ast.walk(e):
+                if isinstance(x, ast.Call) and isinstance(x.func, ast.Attribute) and x.func.attr in ('getopt', 'setopt') and x.args and const_str(x.args[0]):
+                    out.add(const_str(x.args[0]))
+                elif isinstance(x, ast.Name) and isinstance(x.ctx, ast.Load) and depth < 3 and x.id in init.assigns():
+                    for v, st in init.assigns()[x.id]:
+                        if isinstance(v, ast.AST) and not isinstance(v, ast.AugAssign):
+                            out |= names_in(v, depth + 1)
+            return out
+        per_attr = {}
+        for st in init.own_nodes():
+            if isinstance(st, ast.Assign) and isinstance(st.targets[0], ast.Attribute) and isinstance(st.targets[0].value, ast.Name) and st.targets[0].value.id == 'cls':
+                ns = names_in(st.value)
+                if ns:
+                    per_attr.setdefault(st.targets[0].attr, []).append((ns, st))
+        for attr, lst in sorted(per_attr.items()):
+            n += 1
+            allnames = set()
+            for ns, st in lst:
+                allnames |= ns
+            # `arithmetic` selects the class and may appear alongside (cls.name = ...); a setting proper has one source
+            src = allnames - {'arithmetic'}
+            ctx.check(len(src) <= 1, R, lst[0][1], init, 'the class setting %s.%s is taken from one option name' % (cls.name, attr),
+                      'from option %s' % (sorted(src) or ['arithmetic']),
+                      '%s.%s is set from the options %s: the same setting under two names is layered twice (a ballot-file value under one name beats '
+                      'the caller\'s value under the other)' % (cls.name, attr, sorted(src)), nontrivial=False)
+    ctx.floor(R, 'class settings taken from options', n, 6)
+
+
+def _driver_registers_outputs_first(ctx, R):
+    """the report header lists the options nobody asked for: every option the driver itself consumes (dump, json, report) is
+    registered (setopt) before the first rendering is made - a registration that can follow E.report() comes too late"""
+    main = ctx.repo.funcs.get('Droop.main')
+    need(main is not None, 'R36: Droop.main not found')
+    cfg = cfg_of(main)
+    renders = [x for x in cfg.stmt_nodes() if any(isinstance(c.func, ast.Attribute) and c.func.attr == 'report' and not unparse(c.func.value).endswith('rule')
+                                                 for c in calls_at(x))]
+    # calls through a local bound to E.report (a table of renderers) count as renders as well
+    bound = set()
+    for x in main.own_nodes():
+        if isinstance(x, ast.Attribute) and x.attr == 'report' and isinstance(x.ctx, ast.Load) and not isinstance(x.parent, ast.Call):
+            bound.add(x)
+    regs = [x for x in cfg.stmt_nodes() + [n for n in cfg.nodes if n.kind == 'test'] if any(
+        isinstance(c.func, ast.Attribute) and c.func.attr == 'setopt' and unparse(c.func.value).endswith('options') for c in calls_at(x))]
+    late = []
+    if bound:
+        late = regs       # renderers handed around as values: the order of registration and rendering is no longer visible; be explicit
+        late = [x for x in regs if any(isinstance(p_, (ast.For, ast.While)) for p_ in _ancestors(x.ast))]
+    for r_ in renders:
+        after = cfg.reach([r_])
+        late += [x for x in regs if x in after and x is not r_]
+    ctx.check(not late and bool(renders or bound), R, (late[0].ast if late else main.node), main,
+              'the driver registers the options it consumes before it renders the report (whose header names the unused options)',
+              '%d setopt registration(s), none reachable after the first E.report()' % len(regs),
+              'an option is registered (line %s) where a report may already have been rendered: the header of that report lists it as unused although it is honoured'
+              % (late[0].line if late else '?'))
+
+
+def _ancestors(node):
+    n = getattr(node, 'parent', None)
+    while n is not None:
+        yield n
+        n = getattr(n, 'parent', None)
+
+
 def _unused_overrides_from_live_options(ctx, R):
     """the report's "unused / overridden options" notes are computed on the election's live Options object when the report is made:
     options consumed after the count (dump, json, report in Droop.main) are then known to be used.  A snapshot taken at the first
@@ -327,6 +417,8 @@ def r36_construction_order(ctx):
     R = 'R36'
     repo = ctx.repo
     _driver_passes_options_unchanged(ctx, R)
+    _driver_registers_outputs_first(ctx, R)
+    _one_option_per_setting(ctx, R)
     _unused_overrides_from_live_options(ctx, R)
     init = repo.func('droop.election.Election.__init__')
     cfg = cfg_of(init)
@@ -399,3 +491,52 @@ def r36_construction_order(ctx):
     ctx.check(len(rn) == 1 and unparse(rn[0].value) == "options.getopt('rule')", R, rn[0] if rn else init.node, init,
               'the rule is selected through the layered getopt', "rulename = options.getopt('rule')",
               'the rule name is not read through getopt')
+
+
+# ---------------------------------------------------------------------------
+# R59 an option with a fixed set of spellings is tested by comparing with one of them
+# ---------------------------------------------------------------------------
+
+def r59_enum_options(ctx):
+    """a rule parameter taken from `setopt(name, ..., allowed=(<strings>))` is a word, not a flag: every test of it in the rule class
+    (and the method classes it inherits from) compares it with one of the allowed spellings.  A truth test (`if not self.defeat_batch`)
+    is true for every spelling - 'none' included - so the option stops meaning anything."""
+    R = 'R59'
+    n = 0
+    for ri in rules(ctx):
+        opt = ri.cls.find_method('options')
+        if opt is None:
+            continue
+        enums = {}
+        for st in opt.own_nodes():
+            if isinstance(st, ast.Assign) and _self_attr(st.targets[0]) and isinstance(st.value, ast.Call) and isinstance(st.value.func, ast.Attribute) \
+                    and st.value.func.attr == 'setopt':
+                al = [k.value for k in st.value.keywords if k.arg == 'allowed']
+                if al and isinstance(al[0], (ast.Tuple, ast.List)) and al[0].elts and all(const_str(e) is not None for e in al[0].elts):
+                    enums[_self_attr(st.targets[0])] = [const_str(e) for e in al[0].elts]
+        if not enums:
+            continue
+        for kls in ri.cls.mro():
+            for m in kls.methods.values():
+                for g in all_funcs_of(m):
+                    for x in g.own_nodes():
+                        if not (isinstance(x, ast.Attribute) and isinstance(x.ctx, ast.Load) and isinstance(x.value, ast.Name) and x.value.id == 'self' and x.attr in enums):
+                            continue
+                        par = x.parent
+                        n += 1
+                        words = enums[x.attr]
+                        if isinstance(par, ast.Compare) and len(par.ops) == 1 and isinstance(par.ops[0], (ast.Eq, ast.NotEq, ast.In, ast.NotIn)):
+                            other = par.comparators[0] if par.left is x else par.left
+                            lits = [const_str(other)] if const_str(other) is not None else \
+                                ([const_str(e) for e in other.elts] if isinstance(other, (ast.Tuple, ast.List, ast.Set)) else [None])
+                            ok = all(l in words for l in lits)
+                            ctx.check(ok, R, par, g, 'the option word self.%s of rule %s is compared with one of its spellings %s' % (x.attr, ri.short, words),
+                                      unparse(par), '`%s` compares self.%s with %s, which is not among its spellings %s' % (unparse(par), x.attr, lits, words), nontrivial=False)
+                        elif isinstance(par, (ast.If, ast.While, ast.IfExp, ast.BoolOp, ast.UnaryOp, ast.Assert)) and not (isinstance(par, (ast.If, ast.While, ast.IfExp)) and par.test is not x):
+                            ctx.bad(R, x, g, 'the option word self.%s of rule %s is compared with one of its spellings %s' % (x.attr, ri.short, words),
+                                    '`%s` tests the truth of self.%s: every spelling is a non-empty string, so the test does not distinguish %s'
+                                    % (unparse(par)[:80], x.attr, ' from '.join(repr(w) for w in words[:2])))
+                        else:
+                            ctx.ok(R, x, g, 'the option word self.%s of rule %s is compared with one of its spellings %s' % (x.attr, ri.short, words),
+                                   'used as a value (`%s`)' % unparse(par)[:60], nontrivial=False)
+    ctx.floor(R, 'uses of option words', n, 2)
